@@ -113,6 +113,9 @@ class AstProfileTransformer(ast.NodeTransformer):
             return self.generic_visit(node)
         visited = [self.generic_visit(node)]
         for names in node.names:
+            if names.name == '*':
+                # `from foo import *` binds no single name to register
+                continue
             node_name = names.name if names.asname is None else names.asname
             if node_name in self._profiled_imports:
                 continue
